@@ -746,3 +746,136 @@ func orIdent(e ast.Expr) ast.Expr {
 	}
 	return e
 }
+
+// ---- C09/runes: scanned runes are never narrowed to a byte.
+func ruleC09Runes(p *Program, r *Run) {
+	pkg := p.Parser
+	info := pkg.TypesInfo
+	n := 0
+	for _, fd := range AllFuncs(pkg) {
+		if !strings.HasSuffix(p.Fset.Position(fd.Pos()).Filename, "lex.go") {
+			continue
+		}
+		fn := FuncName(pkg, fd)
+		ast.Inspect(fd.Body, func(x ast.Node) bool {
+			call, ok := x.(*ast.CallExpr)
+			if !ok || len(call.Args) != 1 {
+				return true
+			}
+			tv, ok := info.Types[call.Fun]
+			if !ok || !tv.IsType() {
+				return true
+			}
+			to, okT := tv.Type.Underlying().(*types.Basic)
+			from, okF := info.TypeOf(call.Args[0]).Underlying().(*types.Basic)
+			if !okT || !okF {
+				return true
+			}
+			if from.Kind() == types.Int32 && (to.Kind() == types.Uint8 || to.Kind() == types.Int8) && constOf(info, call.Args[0]) == nil {
+				n++
+				r.Fail("C09/runes", fmt.Sprintf("%s conversion %s", fn, exprStr(call)), p.Pos(call.Pos()), "a scanned rune is narrowed to a byte: every non-ASCII character loses its upper bits (token values would not be the decoded text)")
+			}
+			return true
+		})
+		// writes of a rune into a builder go through WriteRune
+		ast.Inspect(fd.Body, func(x ast.Node) bool {
+			call, ok := x.(*ast.CallExpr)
+			if !ok {
+				return true
+			}
+			sel, ok := ast.Unparen(call.Fun).(*ast.SelectorExpr)
+			if !ok || sel.Sel.Name != "WriteRune" || len(call.Args) != 1 {
+				return true
+			}
+			n++
+			r.Pass("C09/runes", fmt.Sprintf("%s %s", fn, exprStr(call)), p.Pos(call.Pos()), "decoded character written as a rune")
+			return true
+		})
+	}
+	r.Floor("C09/runes", 1)
+}
+
+// ---- C09/lookahead: a scanner method that reports failure (false) leaves the position where it was.
+type lookaheadClient struct {
+	loopClient
+	hasDefer bool
+}
+
+func (c *lookaheadClient) Return(e *Engine, st *State, ret *ast.ReturnStmt) {
+	if e.Lit != nil || ret == nil || len(ret.Results) != 1 || !e.Reporting() {
+		return
+	}
+	v := constOf(e.Info, ret.Results[0])
+	if v == nil || v.String() != "false" {
+		return
+	}
+	key := fmt.Sprintf("%s return #%d (false)", c.fn, returnOrdinal(e.Func, ret))
+	net := st.Ext("net")
+	ok := net == "0" || c.hasDefer
+	how := "the scanner position is back at the method's entry when it reports failure"
+	if c.hasDefer {
+		how = "a deferred closure restores the entry position whenever the result is false"
+	}
+	e.Site("C09/lookahead", key, ret, ok, how)
+	if !ok {
+		e.Site("C09/lookahead", key, ret, false, "the look-ahead reports failure but the runes it read are not given back on this path (net consumption "+net+"): they are swallowed into the current token")
+	}
+}
+
+func ruleC09Lookahead(p *Program, r *Run) {
+	pkg := p.Parser
+	info := pkg.TypesInfo
+	w := &loopWorld{p: p, minCons: map[*types.Func]int{}}
+	for _, fd := range AllFuncs(pkg) {
+		fobj := FuncObj(pkg, fd)
+		if cursorOf(fobj) != "scanner" || fd.Type.Results == nil || len(fd.Type.Results.List) != 1 || TypeStr(info.TypeOf(fd.Type.Results.List[0].Type)) != "bool" {
+			continue
+		}
+		fn := FuncName(pkg, fd)
+		r.Saw(fn)
+		c := &lookaheadClient{}
+		c.w, c.pkg, c.fd, c.fn, c.loops = w, pkg, fd, fn, map[ast.Stmt]int{}
+		// deferred restore: defer func() { if !<result> { s.setPos(<entry>) } }()
+		var resName types.Object
+		if len(fd.Type.Results.List[0].Names) == 1 {
+			resName = info.Defs[fd.Type.Results.List[0].Names[0]]
+		}
+		ast.Inspect(fd.Body, func(n ast.Node) bool {
+			ds, ok := n.(*ast.DeferStmt)
+			if !ok {
+				return true
+			}
+			lit, ok := ds.Call.Fun.(*ast.FuncLit)
+			if !ok || len(lit.Body.List) != 1 {
+				return true
+			}
+			ifs, ok := lit.Body.List[0].(*ast.IfStmt)
+			if !ok {
+				return true
+			}
+			un, ok := ast.Unparen(ifs.Cond).(*ast.UnaryExpr)
+			if !ok || un.Op != token.NOT || resName == nil || objOf(info, un.X) != resName {
+				return true
+			}
+			for _, s := range ifs.Body.List {
+				if es, ok := s.(*ast.ExprStmt); ok {
+					if call, ok := es.X.(*ast.CallExpr); ok {
+						if f := Callee(info, call); f != nil && f.Name() == "setPos" {
+							if k, ok := c.entryRelative(nil, call.Args[0], info); ok && k == 0 {
+								c.hasDefer = true
+							}
+						}
+					}
+				}
+			}
+			return true
+		})
+		e := NewEngine(p, pkg, fd, c)
+		e.Run(newState().WithExt("net", "0"))
+		for _, m := range e.Errs {
+			r.Fail("C09/lookahead", fn+" engine", "-", m)
+		}
+		e.FlushSites(r)
+	}
+	r.Floor("C09/lookahead", 3)
+}
